@@ -246,6 +246,13 @@ def run(ctx):
         for name, blob in faults.items():
             o = core.outcome(c2.decrypt_metadata, blob, key)
             ctx.evaluations += 1
+            # (the same blob again, and again: a rejection is a property of the blob, not of how often it was seen)
+            for _again in range(2):
+                o2 = core.outcome(c2.decrypt_metadata, blob, key)
+                if o2[0] != o[0]:
+                    o = o2 if o2[0] == "ok" else o
+                    viol("decrypt_metadata", "outcome_depends_on_earlier_presentations", {"fault": name, "k": kb, "first": str(o[0]), "later": str(o2[0])})
+                    break
             res = "ValueError" if o[0] == "ValueError" else ("ok" if o[0] == "ok" else o[1])
             ev.append({"op": "reject", "fault": name, "k": kb, "r": res})
             ctx.count_distinct(("fault", name, kb))
